@@ -1033,7 +1033,9 @@ def main():
     if PROGRAM.get("tail"):
         thread_main(98, PROGRAM["tail"])
     end = PROGRAM.get("end", "return")
-    log("program_end", end=end, undone=[n for n, f in FUTS.items() if not f.done()])
+    with FUT_LOCK:  # done-callbacks of other threads may register futures at this very moment (chain_cb)
+        _futs = list(FUTS.items())
+    log("program_end", end=end, undone=[n for n, f in _futs if not f.done()])
     if end == "return":
         return
     if end == "wait_all_return":
